@@ -11,7 +11,7 @@ From TLV Require Import Base.Ops Model.Prox Proofs.ProxProofs Proofs.ProxProofsH
   Base.RSum Proofs.ProxProofsSvt Proofs.ProxProofsSvtList Proofs.ProxProofsFirm2 Proofs.ProxProofsRunIdem Proofs.ProxProofsRunFirm
   Proofs.ConstraintsProofsUni Proofs.ProxProofsIdem2 Proofs.ProxProofsSvtPerturb Proofs.ProxProofsSmoothNd
   Model.ProxSvtGap Proofs.ProxProofsSvtGap Proofs.ProxSvtGapTransfer Proofs.ProxProofsTapeCert Proofs.ProxProofsProcrustesGap
-  Proofs.ProxProofsSvtFirmGap Proofs.ProxProofsProcrustesFeas.
+  Proofs.ProxProofsSvtFirmGap Proofs.ProxProofsProcrustesFeas Proofs.ProxProofsProcrustesFeasPerturb.
 Import ListNotations.
 Open Scope R_scope.
 
@@ -712,6 +712,22 @@ Theorem C12_procrustes_fixed_case_certified : forall (m n k : nat) (U : list (li
 Proof. exact procrustes_fixed_case_certified. Qed.
 Print Assumptions C12_procrustes_fixed_case_certified.
 
+(* ---- round 8: feasibility of procrustes from the APPROXIMATE contract alone (a perturbation theorem; Proofs/ProxProofsProcrustesFeasPerturb.v).
+   If the columns of U are orthonormal to within e entrywise and so are the columns of V (tall / square input: the extra clause of C12_procrustes_feasible in
+   approximate form - both are decided per case on the recorded answer with e = 1e-9 by Corr/C12.svd_tape_ok), the columns of U V are orthonormal to within
+   e (1 + k (1 + e)); symmetrically for the rows of U V from the rows of V and of U (wide / square input).  e = 0 gives C12_procrustes_feasible. *)
+Theorem C12_procrustes_feasible_perturbed : forall (m n k : nat) (U V : nat -> nat -> R) (e : R),
+  (aocols m k e U -> aocols k n e V -> aocols m n (e * (1 + INR k * (1 + e))) (compose k U (fun _ => 1) V)) /\
+  (aocols n k e (fun j l => V l j) -> aocols k m e (fun l i => U i l) -> aocols n m (e * (1 + INR k * (1 + e))) (fun j i => compose k U (fun _ => 1) V i j)).
+Proof. exact procrustes_feasible_perturbed. Qed.
+Print Assumptions C12_procrustes_feasible_perturbed.
+Theorem C12_procrustes_list_feasible_perturbed : forall (m n k : nat) (U V : list (list R)) (e : R),
+  (1 <= k)%nat -> rect m k U -> rect k n V -> aocols m k e (mfun U) -> aocols n k e (fun j l => mfun V l j) ->
+  (aocols k n e (mfun V) -> aocols m n (e * (1 + INR k * (1 + e))) (mfun (procrustes_with Rops U V))) /\
+  (aocols k m e (fun l i => mfun U i l) -> aocols n m (e * (1 + INR k * (1 + e))) (fun j i => mfun (procrustes_with Rops U V) i j)).
+Proof. exact procrustes_list_feasible_perturbed. Qed.
+Print Assumptions C12_procrustes_list_feasible_perturbed.
+
 (* ---- round 7: smoothness_prox / proximal_operator(smoothness=t) on a tensor with three or more dimensions, the code as it is
    (Model/ProxDispatch.smooth_nd: NumPy's stacked solve of the shape[0] x shape[0] system against the shape[-2] x shape[-1] slices): the call raises
    exactly when shape[-2] <> shape[0]; otherwise the result is, slice by slice and column by column, the solution of the coded tridiagonal system and
@@ -875,3 +891,7 @@ Example C12_nonvacuous_svt_firm_pair :
   C12.svt_case_ok 2 2 2 [[1; 0]; [0; 1]]%Q [3; 1]%Q [[0; 1]; [1; 0]]%Q [[0; 3]; [1; 0]]%Q 2%Q = true /\
   C12.svt_case_ok 2 2 2 [[0; 1]; [1; 0]]%Q [5; 2]%Q [[1; 0]; [0; 1]]%Q [[0; 2]; [5; 0]]%Q 2%Q = true.
 Proof. split; vm_compute; reflexivity. Qed.
+Example C12_nonvacuous_procrustes_feasible_perturbed :
+  let A := fun i j : nat => match i, j with O, O => 1 | O, S O => 1 / 100 | S O, S O => 1 | _, _ => 0 end in
+  aocols 2 2 (1 / 50) A /\ ~ ocols 2 2 A /\ aocols 2 2 (1 / 50 * (1 + INR 2 * (1 + 1 / 50))) (compose 2 A (fun _ => 1) A).
+Proof. exact feasible_perturbed_instance. Qed.
